@@ -109,6 +109,18 @@ int coap_cache_ignore_options_lkd(coap_context_t *context,
                                   const uint16_t *options, size_t count);
 
 /**
+ * Remove a cache-entry from the hash list and free off all the appropriate
+ * contents apart from app_data.
+ *
+ * Note: This function must be called in the locked state.
+ *
+ * @param context     The context to use.
+ * @param cache_entry The cache-entry to remove.
+ */
+void coap_delete_cache_entry_lkd(coap_context_t *context,
+                                 coap_cache_entry_t *cache_entry);
+
+/**
  * Create a new cache-entry hash keyed by cache-key derived from the PDU.
  *
  * If @p session_based is set, then this cache-entry will get deleted when
